@@ -2,6 +2,7 @@
 from . import lpcommon as lc
 
 ID = 'C11'
+ANCHOR_FILES = ['solver/model.py', 'solver/solver.py']
 LEVEL = 'exploration'
 RULE = ('random small specs x random option sets; for every Optimal run both result formats are parsed strictly and size, '
         'cost pair, squared-cost pair, degree, profile, max and sum lecturer load deviation are recomputed by the reference '
